@@ -71,7 +71,7 @@ func (r *DOH) resolve(ctx context.Context, q query.Query, buf []byte, rt http.Ro
 	// RFC1035, section 7.4: The results of an inverse query should not be cached
 	if q.Type != query.TypePTR && r.Cache != nil {
 		now = time.Now()
-		if v, found := r.Cache.Get(cacheKey{url, q.Class, q.Type, q.Name}); found {
+		if v, found := r.Cache.Get(newCacheKey(url, q)); found {
 			if v, ok := v.(*cacheValue); ok {
 				var minTTL uint32
 				n, minTTL = v.AdjustedResponse(buf, q.ID, r.CacheMaxAge, r.MaxTTL, now)
@@ -128,7 +128,7 @@ func (r *DOH) resolve(ctx context.Context, q query.Query, buf []byte, rt http.Ro
 			trans: res.Proto,
 		}
 		copy(v.msg, buf[:n])
-		r.Cache.Add(cacheKey{url, q.Class, q.Type, q.Name}, v)
+		r.Cache.Add(newCacheKey(url, q), v)
 		r.updateLastMod(url, res.Header.Get("X-Conf-Last-Modified"))
 	}
 	if r.MaxTTL > 0 && n > 0 {
